@@ -23,7 +23,7 @@ import (
 
 func init() {
 	streams["format"] = &stream{gen: genFormat, exec: execSizes}
-	streams["segcrash"] = &stream{gen: genSegCrash, exec: execSeg}
+	streams["segcrash"] = &stream{gen: genSegCrash, exec: execSizes}
 	streams["corrupt"] = &stream{gen: genCorrupt, exec: execSegWatched}
 	streams["sizes"] = &stream{gen: genSizes, exec: execSizes}
 }
@@ -552,6 +552,9 @@ func genFormat(c *ctx, emit func(string)) {
 // comparison and by the L1 theorem).
 func genSegCrash(c *ctx, emit func(string)) {
 	r := rand.New(rand.NewSource(c.seed))
+	// one batch above 8 MiB must be ONE commit (implementation only): otherwise a crash
+	// between its pieces leaves a valid prefix of a batch that was never acknowledged
+	emit(fmt.Sprintf("#bigmid %x", 9<<20))
 	// zero-run scenarios: a committed batch, then a batch whose only entry is a long run of
 	// zero bytes (longer than recovery's 64 KiB scrub buffer); the crash loses the 8-byte entry
 	// header but keeps the trailing commit frame: behind the valid chain lie > 64 KiB of zeros
@@ -583,6 +586,28 @@ func genSegCrash(c *ctx, emit func(string)) {
 	}
 	for i := 0; i < nfail; i++ {
 		emit(genFailChain(r, c, i))
+	}
+	// failed SEALING batch (its index frame and sealing commit stay in the file behind the
+	// valid chain), then a batch with a different number of entries that fits and succeeds:
+	// recovery walks over a stale index frame whose length matches nothing before it
+	for k := 0; k < 4; k++ {
+		limit := 256
+		base := uint64(1 + r.Intn(1000))
+		ops := []string{fmt.Sprintf("seg %x %x 1 %x %x", base, r.Uint64()>>uint(r.Intn(64)), limit, limit),
+			batchOf(r, base, []int{8 + 8*r.Intn(3)})}
+		big := []int{40, 48, 56, 40 + 8*r.Intn(4), 48, 40}[:4+k%3] // > 256 bytes of frames: seals
+		ops = append(ops, []string{"E s", "E w"}[k%2], batchOf(r, base+1, big), "L", "Q")
+		small := []int{16, 24}[:1+k%2] // fewer entries, fits: succeeds unsealed
+		ops = append(ops, batchOf(r, base+1, small), "L", "Q")
+		if k >= 2 {
+			ops = append(ops, "C "+allOnes(limit).Text(16))
+		} else {
+			ops = append(ops, "R")
+		}
+		ops = append(ops, "L", "Q", fmt.Sprintf("G %x", base+1), fmt.Sprintf("G %x", base+2), fmt.Sprintf("G %x", base+3),
+			batchOf(r, base+1+uint64(len(small)), []int{8}), "L", "Q", "F", "D 0 0")
+		emit(strings.Join(ops, " "))
+		c.stat("failed_sealing_batch_scenarios")
 	}
 	// torn SEALING batch behind an acknowledged one (always emitted): batch 1 is committed, the
 	// next batch fills the segment, so index frame and sealing commit go out in the same write;
@@ -1268,6 +1293,7 @@ func execBig(c *ctx, line string) (obs string) {
 	}
 	if n := countCommitFrames(vfs.files[segment.FileName(info)].data); n != 1 {
 		c.witness("C09", "commit-frames-per-batch", fmt.Sprintf("one acknowledged batch of %d bytes left %d commit frames in the file", size, n), line)
+		c.witness("C02", "batch-not-atomic-on-disk", fmt.Sprintf("one batch of %d bytes is committed in %d separately valid pieces: a crash between them leaves a CRC-valid prefix of a batch whose StoreLogs never returned", size, n), line)
 		return "fail"
 	}
 	sealed, is, _ := sw.Sealed()
